@@ -79,11 +79,20 @@ def set_vlan_vid(frame, vid):
   return frame[:12] + b"\x81\x00" + struct.pack("!H", vid & 0x0fff) + frame[12:]
 
 
+def set_vlan_pcp(frame, pcp):
+  """OF 1.0 OFPAT_SET_VLAN_PCP: rewrite the priority of a tagged frame; an untagged frame gets a new
+  802.1Q header with that priority and VLAN id 0."""
+  if frame[12:14] == b"\x81\x00":
+    tci = struct.unpack("!H", frame[14:16])[0]
+    return frame[:14] + struct.pack("!H", (tci & 0x1fff) | ((pcp & 7) << 13)) + frame[16:]
+  return frame[:12] + b"\x81\x00" + struct.pack("!H", (pcp & 7) << 13) + frame[12:]
+
+
 def expected_outputs(actions, frame, in_port, ports):
   """What a list of output actions, possibly preceded by simple header rewrites, does with a frame that
   came in on in_port.
   actions: list of ("port", n) | ("in_port",) | ("flood",) | ("all",) | ("ctl", max_len)
-           | ("set_dl_dst", mac bytes) | ("set_vlan_vid", vid)
+           | ("set_dl_dst", mac bytes) | ("set_vlan_vid", vid) | ("set_vlan_pcp", pcp)
   Returns (sorted list of (port, frame) emissions, list of (max_len, frame as it is at that action) for
   packet-ins).  Actions apply in order, each output sees the rewrites before it (OF 1.0 section 3.3).
   A packet is not sent back out of its ingress port unless OFPP_IN_PORT is named explicitly;
@@ -108,6 +117,8 @@ def expected_outputs(actions, frame, in_port, ports):
       frame = set_dl_dst(frame, a[1])
     elif k == "set_vlan_vid":
       frame = set_vlan_vid(frame, a[1])
+    elif k == "set_vlan_pcp":
+      frame = set_vlan_pcp(frame, a[1])
     else:
       raise ValueError("unknown action kind %r" % (k,))
   return sorted(emits), ctl
@@ -131,6 +142,8 @@ def encode_actions(actions):
       out += cb.action_set_dl(cb.OFPAT_SET_DL_DST, a[1])
     elif k == "set_vlan_vid":
       out += struct.pack("!HHH2x", cb.OFPAT_SET_VLAN_VID, 8, a[1] & 0xffff)
+    elif k == "set_vlan_pcp":
+      out += struct.pack("!HHB3x", cb.OFPAT_SET_VLAN_PCP, 8, a[1] & 0xff)
     elif k == "bad":
       out += cb.action_raw(a[1])
     elif k == "vendor":
